@@ -7,6 +7,7 @@ import Autd3.Lemmas.P02Stm
 import Autd3.Lemmas.P02DefaultsWire
 import Autd3.Lemmas.Hist8
 import Autd3.Lemmas.RtNew
+import Autd3.Lemmas.HistTrace4
 /-!
 # C02 — device state depends on the last datagram per resource, not on history
 First layer: the three copies of the default pulse-width table agree (regenerated from the
@@ -198,7 +199,7 @@ theorem frame_configPwe (s : State) (d : Array Nat) (h : WF s) :
   refine ⟨_, configPwe_eq s d h, { h with pwe := by simp [h.pwe] }, rfl, ?_⟩
   intro i hi
   simp only [rd_writeLoop, rd_wordsAt, h.pwe]
-  simp [hi, Nat.mod_eq_of_lt (u16at_lt _ _), FwLayout.Pwe_size]
+  simp [hi, Nat.mod_eq_of_lt (P02.u16at_lt _ _), FwLayout.Pwe_size]
 
 /-- `phase_corr`: only the phase-correction memory -/
 theorem frame_phaseCorrOp (s : State) (d : Array Nat) (h : WF s) :
@@ -209,7 +210,7 @@ theorem frame_phaseCorrOp (s : State) (d : Array Nat) (h : WF s) :
   · intro i hi
     simp only [rd_writeLoop, rd_wordsAt, h.phaseCorr]
     have : i < 128 := by omega
-    simp [hi, this, Nat.mod_eq_of_lt (u16at_lt _ _), FwLayout.PhaseCorr_size]
+    simp [hi, this, Nat.mod_eq_of_lt (P02.u16at_lt _ _), FwLayout.PhaseCorr_size]
   · intro i hi
     simp only [rd_writeLoop]
     simp
@@ -641,22 +642,29 @@ theorem stm_frame_any_content (s : State) (t t' : Wire.Tx) (s' : State) (dg : Wi
     · exact Hist.sends_gstm_side s t t' s' mode seg tr rep div patterns (Hist.Pre_of_WF hW) ht h
   exact ⟨Hist.modObsSame_of_stmSide this.1, Hist.miscObsSame_of_stmSide this.1, this.2⟩
 
-/-- **Gain, frame condition** (`_partial`: see the last clause).  After every complete send to segment `seg`: the
-whole modulation side and the remaining resources read as before; of the OTHER STM segment the memory and the
-header (mode, size, division, loop count) are as before and, when it is a gain segment, `drives_at` of every pattern.
-The STM request / transition registers and swap chain are untouched iff the datagram carries no transition.
+/-- what `Hist.SegObsSame s s' g` says, accessor by accessor: EVERY `Obs`-level observation of STM segment `g` — mode,
+division, number of patterns, loop count, sound speed, foci count, the raw memory, and `drives_at` for every index —
+reads the same in `s'` as in `s` -/
+theorem segObsSame_spelled_out {s s' : State} {g : Nat} (h : Hist.SegObsSame s s' g) :
+    Obs.isStmGainMode s' g = Obs.isStmGainMode s g ∧ Obs.stmDiv s' g = Obs.stmDiv s g ∧
+    Obs.stmCycle s' g = Obs.stmCycle s g ∧ Obs.stmRep s' g = Obs.stmRep s g ∧
+    Obs.soundSpeed s' g = Obs.soundSpeed s g ∧ Obs.numFoci s' g = Obs.numFoci s g ∧
+    Obs.stmMem s' g = Obs.stmMem s g ∧ ∀ idx, Obs.drivesAt s' g idx = Obs.drivesAt s g idx :=
+  ⟨h.gainMode, h.div, h.cycle, h.rep, h.soundSpeed, h.numFoci, h.mem, h.drives⟩
 
-FULL STATEMENT NOT PROVED: `∀ idx, drives_at(1 - seg, idx)` unchanged also when the other segment is a FOCUS segment.
-Missing: that the sound-speed / foci-count registers of the other segment (91…94) are not written; the side relation
-used here (`Hist.StmSide`) allows the whole block 80…99 and the C01 invariants do not export those two registers. -/
-theorem gain_frame_partial (s : State) (t : Wire.Tx) (seg : Nat) (tr : Wire.Tr) (drives : Array Nat)
+/-- **Gain, frame condition.**  After every complete send to segment `seg`: the whole modulation side and the
+remaining resources read as before; EVERY observation of the OTHER STM segment (`Hist.SegObsSame`, spelled out in
+`segObsSame_spelled_out`: mode, division, size, loop count, sound speed, foci count, memory, `drives_at` of every
+index) is as before — whatever that segment holds: a gain, a GainSTM, or a FociSTM with any number of foci (the C01
+footprint `Rt.gain_send_foot` shows that a Gain send never writes the sound-speed / foci-count registers 91…94).
+The STM request / transition registers and swap chain are untouched iff the datagram carries no transition. -/
+theorem gain_frame (s : State) (t : Wire.Tx) (seg : Nat) (tr : Wire.Tr) (drives : Array Nat)
     (A : Hist.GainAccepts s t seg tr drives) :
     (∃ t' s', Rt.Sends (.gain seg tr drives) s t t' s') ∧
     ∀ t' s', Rt.Sends (.gain seg tr drives) s t t' s' →
       Hist.ModObsSame s s' ∧ Hist.MiscObsSame s s' ∧
       (Hist.Settled s → Hist.Settled s' ∧ Obs.isForceFan s' = Obs.isForceFan s ∧ ∀ g, Fw.gpioIn s' g = Fw.gpioIn s g) ∧
-      Hist.stmHdr s' (1 - seg) = Hist.stmHdr s (1 - seg) ∧ Obs.stmMem s' (1 - seg) = Obs.stmMem s (1 - seg) ∧
-      (Obs.isStmGainMode s (1 - seg) = true → ∀ idx, Obs.drivesAt s' (1 - seg) idx = Obs.drivesAt s (1 - seg) idx) ∧
+      Hist.SegObsSame s s' (1 - seg) ∧
       (tr = none → s'.stmSwap = s.stmSwap ∧ Obs.reqStmSeg s' = Obs.reqStmSeg s ∧ Obs.stmTransition s' = Obs.stmTransition s) ∧
       (tr.isSome = true → Obs.reqStmSeg s' = .ok seg ∧ Obs.stmTransition s' = .ok .syncIdx ∧
         Rt.SwapSet s.stmSwap s'.stmSwap s.dcSysTime 0xFFFF 0xFFFF 1 seg .syncIdx) := by
@@ -665,19 +673,22 @@ theorem gain_frame_partial (s : State) (t : Wire.Tx) (seg : Nat) (tr : Wire.Tr) 
   intro t' s' h
   obtain ⟨_, _, _, a, x, st, r1, r2⟩ := f _ _ h
   have misc := Hist.miscObsSame_of_stmSide x
-  obtain ⟨o1, o2, o3⟩ := Hist.otherStm_same (g := 1 - seg) x a.otherMem
-    ⟨a.otherRegs.2.1, a.otherRegs.2.2.1, a.otherRegs.1, a.otherRegs.2.2.2⟩
-  exact ⟨Hist.modObsSame_of_stmSide x, misc, fun hs => ⟨st hs, misc.fan hs (st hs)⟩, o1, o2, o3, r1, r2⟩
+  have hf := Rt.gain_send_foot seg tr drives s t t' s' A.wf.ctl A.wf.flags A.tx h
+  obtain ⟨hss, hnf⟩ := Hist.focusRegs_TG hf (1 - seg) (by omega)
+  exact ⟨Hist.modObsSame_of_stmSide x, misc, fun hs => ⟨st hs, misc.fan hs (st hs)⟩,
+    Hist.segObsSame_of x.phaseCorr x.numTr a.otherMem
+      ⟨a.otherRegs.2.1, a.otherRegs.2.2.1, a.otherRegs.1, a.otherRegs.2.2.2⟩ hss hnf, r1, r2⟩
 
-/-- **FociSTM, frame condition** (`_partial`, same missing clause as `gain_frame_partial`) -/
-theorem fociStm_frame_partial (s : State) (t : Wire.Tx) (n seg : Nat) (tr : Wire.Tr) (rep div ss : Nat) (records : Array Nat)
+/-- **FociSTM, frame condition**: as `gain_frame`; a FociSTM send writes the sound-speed / foci-count registers of
+its OWN segment only (`Rt.foci_send_foot`), so every observation of the other segment — also when that one is a
+FociSTM segment with a different foci count and sound speed — is as before. -/
+theorem fociStm_frame (s : State) (t : Wire.Tx) (n seg : Nat) (tr : Wire.Tr) (rep div ss : Nat) (records : Array Nat)
     (P : Nat) (A : Hist.FociAccepts s t n seg tr rep div ss records P) :
     (∃ t' s', Rt.Sends (.fociStm n seg tr rep div ss records) s t t' s') ∧
     ∀ t' s', Rt.Sends (.fociStm n seg tr rep div ss records) s t t' s' →
       Hist.ModObsSame s s' ∧ Hist.MiscObsSame s s' ∧
       (Hist.Settled s → Hist.Settled s' ∧ Obs.isForceFan s' = Obs.isForceFan s ∧ ∀ g, Fw.gpioIn s' g = Fw.gpioIn s g) ∧
-      Hist.stmHdr s' (1 - seg) = Hist.stmHdr s (1 - seg) ∧ Obs.stmMem s' (1 - seg) = Obs.stmMem s (1 - seg) ∧
-      (Obs.isStmGainMode s (1 - seg) = true → ∀ idx, Obs.drivesAt s' (1 - seg) idx = Obs.drivesAt s (1 - seg) idx) ∧
+      Hist.SegObsSame s s' (1 - seg) ∧
       (tr = none → s'.stmSwap = s.stmSwap ∧ Obs.reqStmSeg s' = Obs.reqStmSeg s ∧ Obs.stmTransition s' = Obs.stmTransition s) ∧
       (∀ m v, tr = some (m, v) → Obs.reqStmSeg s' = .ok seg ∧ Obs.stmTransition s' = .ok (Rt.tmodeOf m v) ∧
         Rt.SwapSet s.stmSwap s'.stmSwap s.dcSysTime rep div P seg (Rt.tmodeOf m v)) := by
@@ -686,20 +697,22 @@ theorem fociStm_frame_partial (s : State) (t : Wire.Tx) (n seg : Nat) (tr : Wire
   intro t' s' h
   obtain ⟨_, _, _, a, x, st⟩ := f _ _ h
   have misc := Hist.miscObsSame_of_stmSide x
-  obtain ⟨o1, o2, o3⟩ := Hist.otherStm_same (g := 1 - seg) x a.otherMem a.otherRegs
-  refine ⟨Hist.modObsSame_of_stmSide x, misc, fun hs => ⟨st hs, misc.fan hs (st hs)⟩, o1, o2, o3, ?_, ?_⟩
+  have hf := Rt.foci_send_foot n seg A.ok.hseg tr rep div ss records s t t' s' A.wf.ctl A.wf.flags A.tx h
+  obtain ⟨hss, hnf⟩ := Hist.focusRegs_TF A.ok.hseg hf
+  refine ⟨Hist.modObsSame_of_stmSide x, misc, fun hs => ⟨st hs, misc.fan hs (st hs)⟩,
+    Hist.segObsSame_of x.phaseCorr x.numTr a.otherMem a.otherRegs hss hnf, ?_, ?_⟩
   · intro htr; subst htr; exact a.req
   · intro m v htr; subst htr; exact a.req
 
-/-- **GainSTM, frame condition** (`_partial`, same missing clause as `gain_frame_partial`) -/
-theorem gainStm_frame_partial (s : State) (t : Wire.Tx) (mode seg : Nat) (tr : Wire.Tr) (rep div : Nat)
+/-- **GainSTM, frame condition** (all three modes): as `gain_frame` (`Rt.gstm_send_foot`: registers 91…94 are never
+written) -/
+theorem gainStm_frame (s : State) (t : Wire.Tx) (mode seg : Nat) (tr : Wire.Tr) (rep div : Nat)
     (patterns : Array (Array Nat)) (A : Hist.GstmAccepts s t mode seg tr rep div patterns) :
     (∃ t' s', Rt.Sends (.gainStm mode seg tr rep div patterns) s t t' s') ∧
     ∀ t' s', Rt.Sends (.gainStm mode seg tr rep div patterns) s t t' s' →
       Hist.ModObsSame s s' ∧ Hist.MiscObsSame s s' ∧
       (Hist.Settled s → Hist.Settled s' ∧ Obs.isForceFan s' = Obs.isForceFan s ∧ ∀ g, Fw.gpioIn s' g = Fw.gpioIn s g) ∧
-      Hist.stmHdr s' (1 - seg) = Hist.stmHdr s (1 - seg) ∧ Obs.stmMem s' (1 - seg) = Obs.stmMem s (1 - seg) ∧
-      (Obs.isStmGainMode s (1 - seg) = true → ∀ idx, Obs.drivesAt s' (1 - seg) idx = Obs.drivesAt s (1 - seg) idx) ∧
+      Hist.SegObsSame s s' (1 - seg) ∧
       (tr = none → s'.stmSwap = s.stmSwap ∧ Obs.reqStmSeg s' = Obs.reqStmSeg s ∧ Obs.stmTransition s' = Obs.stmTransition s) ∧
       (∀ m v, tr = some (m, v) → Obs.reqStmSeg s' = .ok seg ∧ Obs.stmTransition s' = .ok (Rt.tmodeOf m v) ∧
         Rt.SwapSet s.stmSwap s'.stmSwap s.dcSysTime rep div patterns.size seg (Rt.tmodeOf m v)) := by
@@ -708,8 +721,10 @@ theorem gainStm_frame_partial (s : State) (t : Wire.Tx) (mode seg : Nat) (tr : W
   intro t' s' h
   obtain ⟨_, _, _, a, x, st⟩ := f _ _ h
   have misc := Hist.miscObsSame_of_stmSide x
-  obtain ⟨o1, o2, o3⟩ := Hist.otherStm_same (g := 1 - seg) x a.otherMem a.otherRegs
-  refine ⟨Hist.modObsSame_of_stmSide x, misc, fun hs => ⟨st hs, misc.fan hs (st hs)⟩, o1, o2, o3, ?_, ?_⟩
+  have hf := Rt.gstm_send_foot mode seg tr rep div patterns s t t' s' A.wf.ctl A.wf.flags A.tx h
+  obtain ⟨hss, hnf⟩ := Hist.focusRegs_TG hf (1 - seg) (by omega)
+  refine ⟨Hist.modObsSame_of_stmSide x, misc, fun hs => ⟨st hs, misc.fan hs (st hs)⟩,
+    Hist.segObsSame_of x.phaseCorr x.numTr a.otherMem a.otherRegs hss hnf, ?_, ?_⟩
   · intro htr; subst htr; exact a.req
   · intro m v htr; subst htr; exact a.req
 
@@ -785,6 +800,194 @@ theorem clear_from_any (s : State) (h : WF s ∨ Rt.WF s) :
     · unfold Hist.stmHdr
       rw [a.stmGain seg hseg, b.stmGain seg hseg, a.stmCycle seg hseg, b.stmCycle seg hseg, a.stmDiv seg hseg,
         b.stmDiv seg hseg, a.stmRep seg hseg, b.stmRep seg hseg]
+
+/-! ## fourth layer: a whole history of accepted sends
+
+Vocabulary (`Lemmas/HistTrace1…3.lean`): `Hist.Legal s dg` = the datagram is well-formed and the guards of device `s`
+accept it — kind by kind exactly the hypotheses of the C01 round trip of that kind; `Hist.Run s t h s' t'` = the history
+`h : List Wire.Dg` is sent from device `s` / transmit buffer `t`, each datagram legal on the device it reaches and each
+of its frames acknowledged (`Rt.Sends`), ending in `(s', t')`; `Hist.lastPc none h` = the bytes of the last
+PhaseCorrection datagram of `h` after its last Clear (`none` if there is none); `Hist.refHist h` = `[]` or that one
+datagram; `Hist.IsData d` = `d` is a Modulation, Gain, FociSTM or GainSTM datagram; `Hist.DataObsEq a b d` = the resource
+`d` addresses reads the same on `a` and `b` (Modulation: buffer, division, loop count, size; Gain: `drives_at(seg, 0)`
+and header; FociSTM: `drives_at(seg, idx)` for every pattern, header, foci count, sound speed; GainSTM:
+`drives_at(seg, idx)` for every pattern and header).
+Kinds a history may contain: Clear, Synchronize, ForceFan, ReadsFPGAState, CpuGPIOOut, EmulateGPIOIn, GPIOOutputs,
+PhaseCorrection, PulseWidthEncoder, Silencer (both forms), Gain, Modulation, FociSTM, GainSTM, the four SwapSegment
+datagrams, the null datagram — every datagram kind of the driver model except the firmware-version query
+(`firmInfo`, which addresses no resource; `Legal` is `False` for it). -/
+
+/-- the definitions behind the trace theorem, spelled out -/
+theorem trace_vocabulary (s : State) (t : Wire.Tx) (acc : Option (Array Nat)) (b : Array Nat) (r : List Wire.Dg) :
+    Hist.Run s t [] s t ∧
+    (∀ dg s1 t1 s' t', Hist.Legal s dg → Rt.Sends dg s t t1 s1 → Hist.Run s1 t1 r s' t' → Hist.Run s t (dg :: r) s' t') ∧
+    Hist.lastPc acc [] = acc ∧ Hist.lastPc acc (.clear :: r) = Hist.lastPc none r ∧
+    Hist.lastPc acc (.phaseCorr b :: r) = Hist.lastPc (some b) r ∧
+    Hist.lastPc acc (.forceFan true :: r) = Hist.lastPc acc r ∧
+    (Hist.refHist r = [] ∨ ∃ c, Hist.lastPc none r = some c ∧ Hist.refHist r = [.phaseCorr c]) ∧
+    Hist.pcArr s.numTr none = Array.replicate s.numTr 0 ∧ Hist.pcArr s.numTr (some b) = b ∧
+    (Hist.Legal s (.phaseCorr b) ↔ b.size = s.numTr ∧ ∀ i, rd b i < 256) ∧ Hist.Legal s .clear := by
+  refine ⟨Hist.Run.nil s t, fun dg s1 t1 s' t' l sd tl => Hist.Run.cons l sd tl, rfl, rfl, rfl, rfl, ?_, rfl, rfl, Iff.rfl, trivial⟩
+  unfold Hist.refHist
+  cases e : Hist.lastPc none r with
+  | none => exact Or.inl rfl
+  | some c => exact Or.inr ⟨c, rfl, rfl⟩
+
+/-- a legal datagram is always accepted by a well-formed device, and the device stays well-formed: so histories of
+every length and composition exist -/
+theorem legal_datagram_accepted (s : State) (t : Wire.Tx) (hW : Rt.WF s) (hT : Rt.TxOK t) (hF : Rt.Fresh s t)
+    (dg : Wire.Dg) (hL : Hist.Legal s dg) :
+    (∃ t' s', Rt.Sends dg s t t' s') ∧
+    ∀ t' s', Rt.Sends dg s t t' s' → Rt.WF s' ∧ Rt.TxOK t' ∧ Rt.Fresh s' t' ∧ s'.numTr = s.numTr := by
+  refine ⟨Hist.legal_sends s t hW hT hF dg hL, ?_⟩
+  intro t' s' h
+  have hk : Hist.PcOK s.numTr (some (Obs.phaseCorrection s)) := by
+    refine ⟨Hist.size_phaseCorrection s, ?_⟩
+    intro i
+    unfold Obs.phaseCorrection rd
+    by_cases hi : i < s.numTr
+    · simp only [Array.size_map, Array.size_range, hi, getElem?_pos, Array.getElem_map, Array.getElem_range, Option.getD_some]
+      unfold Obs.phaseCorrAt; simp only []; split <;> omega
+    · simp [hi]
+  obtain ⟨a, b, c, n, _, _⟩ := Hist.step_inv s t hW hT hF dg hL t' s' h (some (Obs.phaseCorrection s)) rfl hk
+  exact ⟨a, b, c, n⟩
+
+/-- **`history_independent_trace`** — the sequence-level statement of the property.  Start from the power-on device
+`p0 = CPUEmulator::new` (any transducer count ≤ 249, any clock) and any 622-byte transmit buffer, send ANY history `h` of
+legal datagrams (any length, any mix of the kinds listed above, dirty in every way a history can be: stale cursors and
+page registers, both segments overwritten many times, silencer / flags / swap chains changed, Clear anywhere), reaching
+device `s`.  Let `q` be the power-on device to which only the LAST PhaseCorrection datagram of `h` after its last Clear
+was sent (`Hist.refHist h`; nothing at all if there is none) — this run always exists.  Then `s` and `q` are well-formed,
+store the same phase correction (`Hist.pcArr numTr (Hist.lastPc none h)`: those bytes, or all zero), and for EVERY data
+datagram `d` (Modulation, Gain, FociSTM, GainSTM; all legal sizes and contents) that is legal on both: both accept it, and
+after every complete send the resource `d` addresses reads the same on the history-laden device and on the reference
+device (`Hist.DataObsEq`; what it reads — exactly the datagram, with the stored phase correction added to the phases —
+is said by `mod/gain/fociStm/gainStm_history_independent`).  The proof is one induction over `h` folding WF preservation
+(C01 round trips + `clear_roundtrip` / `sync_roundtrip`), the frame conditions for the phase-correction memory
+(`Hist.step_inv`) and the pairwise history-independence theorems. -/
+theorem history_independent_trace (numTr now : Nat) (hn : numTr ≤ 249) (p0 : State) (hp0 : Fw.new numTr now = .ok p0)
+    (t0 : Wire.Tx) (ht0 : Rt.TxOK t0) (h : List Wire.Dg) (s : State) (t : Wire.Tx) (hr : Hist.Run p0 t0 h s t) :
+    ∃ q tq, Hist.Run p0 t0 (Hist.refHist h) q tq ∧ Rt.WF s ∧ Rt.TxOK t ∧ Rt.Fresh s t ∧ Rt.WF q ∧ Rt.TxOK tq ∧
+      Rt.Fresh q tq ∧ Hist.PhaseSame s q ∧ s.numTr = numTr ∧
+      Obs.phaseCorrection s = Hist.pcArr numTr (Hist.lastPc none h) ∧
+      ∀ d, Hist.IsData d = true → Hist.Legal s d → Hist.Legal q d →
+        (∃ t' s', Rt.Sends d s t t' s') ∧ (∃ tq' q', Rt.Sends d q tq tq' q') ∧
+        ∀ t' s' tq' q', Rt.Sends d s t t' s' → Rt.Sends d q tq tq' q' → Hist.DataObsEq s' q' d :=
+  Hist.trace_probe numTr now hn p0 hp0 t0 ht0 h s t hr
+
+/-- the case the property text names: if the history contains no PhaseCorrection datagram after its last Clear, the
+reference device is the freshly initialised device itself -/
+theorem history_independent_trace_power_on (numTr now : Nat) (hn : numTr ≤ 249) (p0 : State)
+    (hp0 : Fw.new numTr now = .ok p0) (t0 : Wire.Tx) (ht0 : Rt.TxOK t0) (h : List Wire.Dg) (s : State) (t : Wire.Tx)
+    (hr : Hist.Run p0 t0 h s t) (hpc : Hist.lastPc none h = none) :
+    Obs.phaseCorrection s = Array.replicate numTr 0 ∧
+    ∀ d, Hist.IsData d = true → Hist.Legal s d → Hist.Legal p0 d →
+      (∃ t' s', Rt.Sends d s t t' s') ∧ (∃ t0' p', Rt.Sends d p0 t0 t0' p') ∧
+      ∀ t' s' t0' p', Rt.Sends d s t t' s' → Rt.Sends d p0 t0 t0' p' → Hist.DataObsEq s' p' d := by
+  obtain ⟨q, tq, hq, _, _, _, _, _, _, _, _, p, f⟩ := history_independent_trace numTr now hn p0 hp0 t0 ht0 h s t hr
+  have e : Hist.refHist h = [] := by unfold Hist.refHist; rw [hpc]
+  rw [e] at hq
+  cases hq
+  rw [hpc] at p
+  exact ⟨p, f⟩
+
+/-- the four cases of `Hist.DataObsEq`, accessor by accessor -/
+theorem dataObsEq_spelled_out (a b : State) (seg n mode rep div ss : Nat) (tr : Wire.Tr) (samples drives records : Array Nat)
+    (patterns : Array (Array Nat)) :
+    (Hist.DataObsEq a b (.modulation seg tr rep div samples) ↔
+      (Obs.modBuffer a seg, Obs.modDiv a seg, Obs.modRep a seg, Obs.modCycle a seg) =
+      (Obs.modBuffer b seg, Obs.modDiv b seg, Obs.modRep b seg, Obs.modCycle b seg)) ∧
+    (Hist.DataObsEq a b (.gain seg tr drives) ↔
+      Obs.drivesAt a seg 0 = Obs.drivesAt b seg 0 ∧ Hist.stmHdr a seg = Hist.stmHdr b seg) ∧
+    (Hist.DataObsEq a b (.fociStm n seg tr rep div ss records) ↔
+      (∀ idx, idx < records.size / n → Obs.drivesAt a seg idx = Obs.drivesAt b seg idx) ∧
+      Hist.stmHdr a seg = Hist.stmHdr b seg ∧ Obs.numFoci a seg = Obs.numFoci b seg ∧
+      Obs.soundSpeed a seg = Obs.soundSpeed b seg) ∧
+    (Hist.DataObsEq a b (.gainStm mode seg tr rep div patterns) ↔
+      (∀ idx, idx < patterns.size → Obs.drivesAt a seg idx = Obs.drivesAt b seg idx) ∧
+      Hist.stmHdr a seg = Hist.stmHdr b seg) ∧
+    Hist.stmHdr a seg = (Obs.isStmGainMode a seg, Obs.stmCycle a seg, Obs.stmDiv a seg, Obs.stmRep a seg) :=
+  ⟨Iff.rfl, Iff.rfl, Iff.rfl, Iff.rfl, rfl⟩
+
+/-! ## fifth layer: the time-dependent part — `Swapchain::set`, then `Swapchain::update` -/
+
+/-- **what is playing after an immediate request is a function of the time, the division and the cycle only.**
+Straight from `Swap.set` / `Swap.update` (`Model/FwBasic.lean`): take two swap chains with arbitrary content — one
+left behind by any history, one fresh; only `freq_div ≥ 1`, `cycle ≥ 1` is assumed of them (`Rt.SwapOK`, part of the
+round-trip invariant) — request segment `seg` with loop count 0xFFFF (an infinite loop: the request takes effect at
+once) and a transition mode other than Ext (Immediate for Modulation / FociSTM / GainSTM and their SwapSegment
+datagrams, SyncIdx for Gain), at arbitrary and different times `ta`, `tb`; then update both at ANY time `t` with
+arbitrary GPIO inputs.  Neither `set` nor `update` panics, both chains play segment `seg`, and
+`cur_idx = ((fpga_sys_time(t) >> 9) / fd) % cyc` on both. -/
+theorem playing_after_immediate_request (w1 w2 : Swap) (h1 : Rt.SwapOK w1) (h2 : Rt.SwapOK w2)
+    (ta tb fd cyc seg : Nat) (hfd : 1 ≤ fd) (hcyc : 1 ≤ cyc) (mode : TMode) (hm : mode ≠ .ext)
+    (g1 g2 : Nat → Bool) (t : Nat) :
+    ∃ a1 b1 a2 b2, w1.set ta 0xFFFF fd cyc seg mode = .ok a1 ∧ a1.update g1 t = .ok b1 ∧
+      w2.set tb 0xFFFF fd cyc seg mode = .ok a2 ∧ a2.update g2 t = .ok b2 ∧
+      b1.cur = seg ∧ b2.cur = seg ∧ b1.curIdx = ((fpgaSysTime t >>> 9) / fd) % cyc ∧ b2.curIdx = b1.curIdx ∧
+      b1.stop = false ∧ b2.stop = false := by
+  obtain ⟨a1, b1, e1, u1, c1, i1, _, s1, _⟩ := Hist.set_then_update w1 h1 ta fd cyc seg hfd hcyc mode hm g1 t
+  obtain ⟨a2, b2, e2, u2, c2, i2, _, s2, _⟩ := Hist.set_then_update w2 h2 tb fd cyc seg hfd hcyc mode hm g2 t
+  exact ⟨a1, b1, a2, b2, e1, u1, e2, u2, c1, c2, i1, by rw [i1, i2], s1, s2⟩
+
+/-- `Hist.Playing w`, spelled out, and where it holds: it is what EVERY successful `Swapchain::set` leaves (any chain,
+any arguments); both chains of the power-on device satisfy it; and a complete send of ANY datagram from ANY state
+(no hypothesis at all: `Hist.sends_pq` walks through all 19 handlers for arbitrary payloads — the only writer of a
+swap chain is `FPGAEmulator::set_and_wait_update`, which installs an output of `set`) keeps it for both chains. -/
+theorem playing_invariant :
+    (∀ w : Swap, Hist.Playing w ↔
+      (w.state = .infiniteLoop → w.stop = false ∧ w.extMode = (w.mode == TMode.ext) ∧ sel w.ticOff w.cur = 0)) ∧
+    (∀ (w w' : Swap) (t rep fd cyc seg : Nat) (mode : TMode), w.set t rep fd cyc seg mode = .ok w' → Hist.Playing w') ∧
+    (∀ numTr now p0, Fw.new numTr now = .ok p0 → Hist.Playing p0.stmSwap ∧ Hist.Playing p0.modSwap) ∧
+    (∀ (dg : Wire.Dg) (s : State) (t t' : Wire.Tx) (s' : State), Rt.Sends dg s t t' s' →
+      (Hist.Playing s.stmSwap → Hist.Playing s'.stmSwap) ∧ (Hist.Playing s.modSwap → Hist.Playing s'.modSwap)) :=
+  ⟨fun _ => Iff.rfl, Hist.set_playing, Hist.new_playing, Hist.sends_pq⟩
+
+/-- **`playing_after_probe`** — the time-dependent observations after a whole history.  Device `s` is reached from
+power-on by ANY history of legal sends.  A probe whose transition takes effect at once — FociSTM / GainSTM / Modulation
+with an Immediate transition and loop count 0xFFFF, or a Gain with its (Immediate) transition — is sent, then the clock
+is updated ONCE, at ANY time `tc` (`update_with_sys_time`; if it panics there is nothing to observe — the other swap
+chain may be in one of the states of the known findings F15 / F18).  Then `current_stm_segment` / `current_stm_idx`
+(`current_mod_segment` / `current_mod_idx` for Modulation) are: the probe's segment, and
+`((fpga_sys_time(tc) >> 9) / division) % cycle` — a function of the time, the datagram's division and its number of
+patterns / samples ONLY.  The history does not enter: the history-laden device and the fresh one (`h = []`) read the
+same.  (A Gain has one pattern: index 0.) -/
+theorem playing_after_probe (numTr now : Nat) (hn : numTr ≤ 249) (p0 : State) (hp0 : Fw.new numTr now = .ok p0)
+    (t0 : Wire.Tx) (ht0 : Rt.TxOK t0) (h : List Wire.Dg) (s : State) (t : Wire.Tx) (hr : Hist.Run p0 t0 h s t) (tc : Nat) :
+    (∀ n seg v div ss records t' s' s'',
+      Hist.Legal s (.fociStm n seg (some (Drv.TRANSITION_MODE_IMMEDIATE, v)) 0xFFFF div ss records) →
+      Rt.Sends (.fociStm n seg (some (Drv.TRANSITION_MODE_IMMEDIATE, v)) 0xFFFF div ss records) s t t' s' →
+      updateWithSysTime s' tc = .ok s'' →
+      Obs.currentStmSeg s'' = seg ∧ Obs.currentStmIdx s'' = ((fpgaSysTime tc >>> 9) / div) % (records.size / n)) ∧
+    (∀ mode seg v div patterns t' s' s'',
+      Hist.Legal s (.gainStm mode seg (some (Drv.TRANSITION_MODE_IMMEDIATE, v)) 0xFFFF div patterns) →
+      Rt.Sends (.gainStm mode seg (some (Drv.TRANSITION_MODE_IMMEDIATE, v)) 0xFFFF div patterns) s t t' s' →
+      updateWithSysTime s' tc = .ok s'' →
+      Obs.currentStmSeg s'' = seg ∧ Obs.currentStmIdx s'' = ((fpgaSysTime tc >>> 9) / div) % patterns.size) ∧
+    (∀ seg v drives t' s' s'', Hist.Legal s (.gain seg (some (Drv.TRANSITION_MODE_IMMEDIATE, v)) drives) →
+      Rt.Sends (.gain seg (some (Drv.TRANSITION_MODE_IMMEDIATE, v)) drives) s t t' s' →
+      updateWithSysTime s' tc = .ok s'' → Obs.currentStmSeg s'' = seg ∧ Obs.currentStmIdx s'' = 0) ∧
+    (∀ seg v div samples t' s' s'',
+      Hist.Legal s (.modulation seg (some (Drv.TRANSITION_MODE_IMMEDIATE, v)) 0xFFFF div samples) →
+      Rt.Sends (.modulation seg (some (Drv.TRANSITION_MODE_IMMEDIATE, v)) 0xFFFF div samples) s t t' s' →
+      updateWithSysTime s' tc = .ok s'' →
+      Obs.currentModSeg s'' = seg ∧ Obs.currentModIdx s'' = ((fpgaSysTime tc >>> 9) / div) % samples.size) := by
+  obtain ⟨a, b, c, p1, p2⟩ := Hist.run_playing numTr now hn p0 hp0 t0 ht0 hr
+  exact Hist.probe_then_clock s t a b c p1 p2 tc
+
+/-- where the history DOES enter: with an Ext transition `Swapchain::set` records `ext_last_lap` computed with the
+chain's OLD division and cycle (`lap_and_idx` is called before `freq_div` / `cycle` are updated), and `update` flips
+the playing segment when the lap parity differs.  Two chains that differ only in the stale division of segment 0, same
+request (Ext, loop count 0xFFFF, division 512, 4 patterns, at time 1 s), same update time (1 ns later): the chain whose
+segment 0 had division 10 keeps playing segment 0 (index 2), the one with the stale division 4000 flips to segment 1.  So the closed form of `playing_after_immediate_request` does not extend to Ext. -/
+theorem ext_transition_depends_on_history :
+    (do let a ← ({ freqDiv := (10, 10) } : Swap).set 1000000000 0xFFFF 512 4 0 .ext
+        let b ← a.update (fun _ => false) 1000000001
+        pure (b.cur, b.curIdx) : M (Nat × Nat)).toOption = some (0, 2) ∧
+    (do let a ← ({ freqDiv := (4000, 10) } : Swap).set 1000000000 0xFFFF 512 4 0 .ext
+        let b ← a.update (fun _ => false) 1000000001
+        pure (b.cur, b.curIdx) : M (Nat × Nat)).toOption = some (1, 0) := by
+  decide +kernel
 
 /-! ## non-vacuity -/
 
@@ -881,5 +1084,55 @@ example : ∃ s' p, Fw.clear Hist.dirtyState #[] = .ok (s', Cpu.NO_ERR) ∧ Fw.n
     s'.modCycle = p.modCycle := by
   obtain ⟨s', p, h1, h2, _, _, _, h6, _, _, _, _, _, h12, _⟩ := clear_from_any Hist.dirtyState (Or.inr Hist.WF_dirtyState)
   exact ⟨s', p, h1, h2, h6, h12⟩
+
+/-- non-vacuity of the frame theorems' new clause: the OTHER segment may hold a FociSTM — `Hist.SegObsSame` has no
+mode hypothesis -/
+example (s s' : State) (h : Hist.SegObsSame s s' 1) (hf : Obs.isStmGainMode s 1 = false) :
+    Obs.isStmGainMode s' 1 = false ∧ Obs.numFoci s' 1 = Obs.numFoci s 1 ∧ ∀ idx, Obs.drivesAt s' 1 idx = Obs.drivesAt s 1 idx :=
+  ⟨by rw [h.gainMode, hf], h.numFoci, h.drives⟩
+
+/-- non-vacuity of `history_independent_trace`: the concrete dirty history `Hist.dirtyHist` (PhaseCorrection 7…,
+Gain to segment 1 with transition, ForceFan, Silencer fixed update rate, Clear, EmulateGPIOIn, PhaseCorrection 9…, Gain
+to segment 0) runs from the 249-transducer power-on device; the phase correction in force is the second one; the
+reference history is that one datagram; a Gain probe to segment 1 is legal on every device -/
+example (now : Nat) (p0 : State) (hp0 : Fw.new 249 now = .ok p0) :
+    (∃ s t, Hist.Run p0 {} Hist.dirtyHist s t) ∧ Hist.dirtyHist.length = 8 ∧
+    Hist.lastPc none Hist.dirtyHist = some (Array.replicate 249 9) ∧
+    Hist.refHist Hist.dirtyHist = [.phaseCorr (Array.replicate 249 9)] ∧
+    Hist.IsData (.gain 1 none (Array.replicate 249 0x80FF)) = true ∧
+    ∀ x : State, Hist.Legal x (.gain 1 none (Array.replicate 249 0x80FF)) :=
+  ⟨Hist.dirtyHist_runs now p0 hp0 {} Rt.TxOK_exTx, rfl, rfl, rfl, rfl,
+    fun _ => ⟨by decide, Or.inl rfl, fun i => Hist.rd_replicate_lt _ _ _ _ (by decide)⟩⟩
+
+/-- … and so the theorem applies to it: after the dirty history a Gain probe reads back the same as on the power-on
+device that only received the second phase correction -/
+example (now : Nat) (p0 : State) (hp0 : Fw.new 249 now = .ok p0) (s : State) (t : Wire.Tx)
+    (hr : Hist.Run p0 {} Hist.dirtyHist s t) :
+    ∃ q tq, Hist.Run p0 {} [.phaseCorr (Array.replicate 249 9)] q tq ∧
+      Obs.phaseCorrection s = Array.replicate 249 9 ∧
+      ∀ t' s' tq' q', Rt.Sends (.gain 1 none (Array.replicate 249 0x80FF)) s t t' s' →
+        Rt.Sends (.gain 1 none (Array.replicate 249 0x80FF)) q tq tq' q' →
+        Obs.drivesAt s' 1 0 = Obs.drivesAt q' 1 0 ∧ Hist.stmHdr s' 1 = Hist.stmHdr q' 1 := by
+  obtain ⟨q, tq, hq, _, _, _, _, _, _, _, _, p, f⟩ :=
+    history_independent_trace 249 now (by decide) p0 hp0 {} Rt.TxOK_exTx Hist.dirtyHist s t hr
+  have hl : ∀ x : State, Hist.Legal x (.gain 1 none (Array.replicate 249 0x80FF)) :=
+    fun _ => ⟨by decide, Or.inl rfl, fun i => Hist.rd_replicate_lt _ _ _ _ (by decide)⟩
+  exact ⟨q, tq, hq, p, (f _ rfl (hl s) (hl q)).2.2⟩
+
+/-- non-vacuity of `playing_after_immediate_request`: a chain stopped in a finite loop on segment 1 with a stale tick
+offset, in Ext mode, and the fresh chain — FociSTM-like request (division 512, 300 patterns) to segment 0 -/
+example : Rt.SwapOK { cur := 1, req := 1, state := .finiteLoop, rep := 3, freqDiv := (5120, 10), cycle := (100, 3),
+                      stop := true, extMode := true, ticOff := (77, 2), curIdx := 2, extLastLap := 9 } ∧
+    Rt.SwapOK {} ∧ (1 : Nat) ≤ 512 ∧ (1 : Nat) ≤ 300 ∧ TMode.immediate ≠ TMode.ext :=
+  ⟨⟨by decide, by decide, by decide, by decide⟩, ⟨by decide, by decide, by decide, by decide⟩, by decide, by decide,
+    by decide⟩
+
+/-- non-vacuity of `playing_after_probe`: after the dirty history, a Gain probe to segment 1 with its transition is
+legal (on every device), so the third clause applies to every clock update that returns -/
+example (now : Nat) (p0 : State) (hp0 : Fw.new 249 now = .ok p0) :
+    (∃ s t, Hist.Run p0 {} Hist.dirtyHist s t) ∧
+    ∀ x : State, Hist.Legal x (.gain 1 (some (Drv.TRANSITION_MODE_IMMEDIATE, 0)) (Array.replicate 249 0x80FF)) :=
+  ⟨Hist.dirtyHist_runs now p0 hp0 {} Rt.TxOK_exTx,
+    fun _ => ⟨by decide, Or.inr ⟨0, rfl⟩, fun i => Hist.rd_replicate_lt _ _ _ _ (by decide)⟩⟩
 
 end Autd3.C02
